@@ -103,3 +103,32 @@ Qed.
 
 Print Assumptions src_into_unit_conforms.
 Print Assumptions src_parse_units_conform.
+
+(* ---- the date-time formats ------------------------------------------------------------------------------------------ *)
+From Tevec Require Import Model.ParseDT.
+
+(* tokenizer of the strftime items these formats use; None on anything else *)
+Fixpoint fmt_items (l : list ascii) : option (list ParseDT.item) :=
+  match l with
+  | [] => Some []
+  | "%"%char :: c :: r =>
+      match (if Ascii.eqb c "Y" then Some IY else if Ascii.eqb c "m" then Some Imon else if Ascii.eqb c "d" then Some Iday
+             else if Ascii.eqb c "H" then Some IH else if Ascii.eqb c "M" then Some IM else if Ascii.eqb c "S" then Some IS
+             else if Ascii.eqb c "f" then Some If else None), fmt_items r with
+      | Some i, Some t => Some (i :: t)
+      | _, _ => None
+      end
+  | c :: r =>
+      if Ascii.eqb c "%" then None
+      else match fmt_items r with
+           | Some t => Some ((if Ascii.eqb c " " then ISp else ILit (Z.of_nat (nat_of_ascii c))) :: t)
+           | None => None
+           end
+  end.
+Definition fmt_of (s : string) : option (list ParseDT.item) := fmt_items (list_ascii_of_string s).
+
+(* the source's rule list is the model's, format by format and in the same order; the default format too *)
+Theorem src_time_rules_conform : map fmt_of src_time_rules = map Some ParseDT.rules.
+Proof. vm_compute. reflexivity. Qed.
+Theorem src_strftime_default_conforms : fmt_of src_strftime_default = Some ParseDT.fmt_default.
+Proof. vm_compute. reflexivity. Qed.
